@@ -82,18 +82,19 @@ def thr_arg(t):
     return np.array([x[0] / x[1] for x in v], dtype=np.float64)
 
 
+_DTYPES = {}
+
+
 def mk_records(case):
     spr = case["spr"]
-    recs = case["records"]
-    a = np.zeros(len(recs), dtype=strax.record_dtype(spr))
-    for i, r in enumerate(recs):
-        a[i]["time"], a[i]["length"], a[i]["dt"], a[i]["channel"] = r["t"], r["len"], r["dt"], r["ch"]
-        a[i]["record_i"], a[i]["pulse_length"], a[i]["area"], a[i]["reduction_level"] = r["ri"], r["pl"], r["area"], r["rl"]
-        a[i]["baseline"] = r["bl"][0] / r["bl"][1]
-        a[i]["baseline_rms"] = r["rms"][0] / r["rms"][1]
-        a[i]["amplitude_bit_shift"] = r["sh"]
-        a[i]["data"][:] = r["data"]
-    return a
+    dt = _DTYPES.get(spr)
+    if dt is None:
+        dt = _DTYPES[spr] = np.dtype(strax.record_dtype(spr))
+        assert [n for n in dt.names] == ["time", "length", "dt", "channel", "pulse_length", "record_i", "area", "reduction_level", "baseline",
+                                         "baseline_rms", "amplitude_bit_shift", "data"], dt.names
+    rows = [(r["t"], r["len"], r["dt"], r["ch"], r["pl"], r["ri"], r["area"], r["rl"], r["bl"][0] / r["bl"][1], r["rms"][0] / r["rms"][1],
+             r["sh"], r["data"]) for r in case["records"]]
+    return np.array(rows, dtype=dt) if rows else np.zeros(0, dtype=dt)
 
 
 def show_records(a):
